@@ -381,8 +381,13 @@ def mutate(rng, case):
 
 def norm_impl(line):
     # the model's only statement about a freed-but-still-stored value is "behaviour undefined"; under
-    # AddressSanitizer the implementation dies on the next access to it
+    # AddressSanitizer the implementation dies on the next access to it (the harness also ends the
+    # process when one case uses more than 5 s of CPU time)
     return "UB" if line.startswith("CRASH") else line
+
+
+def norm_model(line):
+    return "UB" if line == "HANG" else line
 
 
 def run(res, tier):
@@ -394,4 +399,6 @@ def run(res, tier):
     std.run_standard(res, PID, tier, area="acldom", build_impl=impl, gen_cases=gen_cases, oracle=oracle,
                      corr_name="AcldomModel/SplayModel vs src/acl/DomainData.cc, src/acl/SplayInserter.h, src/anyp/Uri.cc, include/splay.h",
                      gens=["acldom"], n_quick=14000, n_thorough=150000, seed_salt=41, mutate=mutate,
-                     kind_fn=kind_fn, nontrivial_fn=nontrivial, norm_impl=norm_impl)
+                     kind_fn=kind_fn, nontrivial_fn=nontrivial, norm_impl=norm_impl, norm_model=norm_model,
+                     impl_env={"ASAN_OPTIONS": "detect_leaks=0:abort_on_error=0:symbolize=0",
+                               "UBSAN_OPTIONS": "print_stacktrace=0:halt_on_error=1:symbolize=0"})
